@@ -12,18 +12,28 @@ const (
 
 // ShouldIncludeNode validates and checks the value of a skip or include directive
 func ShouldIncludeNode(directives []*Directive) (bool, error) {
+	include := true
+
 	skipDirective := findDirectiveWithName(directives, SKIP)
 	if skipDirective != nil {
 		b, err := parseIf(skipDirective)
-		return !b, err
+		if err != nil {
+			return !b, err
+		}
+		include = !b
 	}
 
+	// A node carrying both @skip and @include is included only if both allow it.
 	includeDirective := findDirectiveWithName(directives, INCLUDE)
 	if includeDirective != nil {
-		return parseIf(includeDirective)
+		b, err := parseIf(includeDirective)
+		if err != nil {
+			return b, err
+		}
+		include = include && b
 	}
 
-	return true, nil
+	return include, nil
 }
 
 // findDirectiveWithName checks if any of the directives on a field have the sepcified name (eg skip or include)
